@@ -110,12 +110,25 @@ Theorem C15_stale_locks_released_at_timeout : forall running ents x st,
 Proof. exact fsl_timeout. Qed.
 Print Assumptions C15_stale_locks_released_at_timeout.
 
-(* observation (not a violation of C15): when the last unknown worker becomes known between two looks, the
-   list of the previous look is released, also for a container that has meanwhile been found running *)
-Theorem C15_stale_locks_outdated_list :
-  fix_stale_locks [(true, [], [mkent 7 Locked 5 0]); (false, [(7%N, 0)], [mkent 7 Locked 5 0])] [] = [7%N].
-Proof. exact fsl_unlocks_outdated_list. Qed.
-Print Assumptions C15_stale_locks_outdated_list.
+(* F24 (fixed in /repo 05ee31b): a container that pool.Running() reports when the wait ends because every
+   worker has become known is not unlocked *)
+Theorem C15_stale_locks_skip_running : forall snaps u,
+  In u (fix_stale_locks snaps []) ->
+  forall pre running ents rest, snaps = pre ++ (false, running, ents) :: rest ->
+  Forall (fun sn => fst (fst sn) = true) pre -> rlook u running = None.
+Proof. exact (fun snaps => fsl_skips_running snaps []). Qed.
+Print Assumptions C15_stale_locks_skip_running.
+
+Theorem C15_stale_locks_recovered_not_unlocked :
+  fix_stale_locks [(true, [], [mkent 7 Locked 5 0]); (false, [(7%N, 0)], [mkent 7 Locked 5 0])] [] = [].
+Proof. exact fsl_recovered_not_unlocked. Qed.
+Print Assumptions C15_stale_locks_recovered_not_unlocked.
+
+(* regression witness about the old model (the code before that commit unlocked container 7 here) *)
+Theorem C15_stale_locks_old_model_regression_witness :
+  fix_stale_locks_old [(true, [], [mkent 7 Locked 5 0]); (false, [(7%N, 0)], [mkent 7 Locked 5 0])] [] = [7%N].
+Proof. exact fsl_old_unlocked_outdated_list. Qed.
+Print Assumptions C15_stale_locks_old_model_regression_witness.
 
 (* ---------------- bounded convergence of the model's healthy round (partial) ---------------- *)
 (* round = queue poll + runQueue + the API calls it spawned + sync and its calls + start commands land and
